@@ -229,7 +229,9 @@ func (s *fsm12) finish(ctx context.Context, c Conn) (State, error) {
 	select {
 	case state := <-c.RecvHandshake():
 		close(state.Done)
-		if s.state.IsClient {
+		// Only the side that sent the last flight retransmits it: the server
+		// after a full handshake, the client after an abbreviated one.
+		if !s.currentFlight.IsLastSendFlight() {
 			return StateFinished, nil
 		}
 
